@@ -445,7 +445,7 @@ impl Phase for LargeArgs {
     fn run(&mut self, _idx: u64, r: &mut Rng, out: &mut Out) {
         let pick = *r.pick(&["min", "max", "contains", "contains_any", "len", "str::from", "typeof", "len", "str::substring", "str::trim", "str::to_uppercase", "str::to_lowercase"]);
         let ni = self.names.iter().position(|n| *n == pick).unwrap();
-        let size = r.range(50, 600);
+        let size = if r.chance(1, 2) { r.range(50, 600) } else { (*r.pick(&gen::BOUNDARY_SIZES)).max(2) };
         let nums = |r: &mut Rng, n: usize| -> Vec<RV> {
             let base = r.int_bitlen() / 4;
             (0..n)
@@ -456,7 +456,7 @@ impl Phase for LargeArgs {
                 .collect()
         };
         let long_string = |r: &mut Rng| -> String {
-            let n = r.range(200, 4000);
+            let n = if r.chance(1, 2) { r.range(200, 4000) } else { *r.pick(&gen::BOUNDARY_SIZES) };
             let alphabet: Vec<char> = "abcXYZ 0189\t\n,;()äßİ日😀\u{a0}\u{3000}".chars().collect();
             let mut s = String::new();
             // leading / trailing whitespace of several kinds for trim
